@@ -20,6 +20,8 @@ type Unit struct {
 	Tags   string   // "purego" | ""
 	Groups []string // contract file groups: zz_verif_contracts_<group>.go
 	Funcs  []string // optional filter (contract names); empty = all
+	Verify []string // groups whose contracts are verified (default: all of Groups); the others are only used at call sites
+	MultiPartOnly bool // keep only functions with more than one alias partition (C19)
 	Tier   string   // "" = both tiers, "thorough" = thorough only
 }
 
@@ -111,9 +113,9 @@ func cmdProp(args []string) {
 		fmt.Sscan(s, &seed)
 	}
 	if *timeout == 0 {
-		*timeout = 30
+		*timeout = 60
 		if *tier == "thorough" {
-			*timeout = 120
+			*timeout = 180
 		}
 	}
 	pinned := loadPinned(*verifRoot + "/contracts/params.json")
@@ -181,6 +183,11 @@ func cmdProp(args []string) {
 			rel := strings.TrimPrefix(u.Pkg, "./")
 			// load the contract groups of this unit
 			v.contracts = map[string]*Contract{}
+			verifyGroup := map[string]bool{}
+			for _, g := range u.Verify {
+				verifyGroup[g] = true
+			}
+			groupOf := map[*Contract]string{}
 			for _, g := range u.Groups {
 				f := filepath.Join(*repo, rel, "zz_verif_contracts_"+g+".go")
 				cs, err := ParseContracts(f)
@@ -197,6 +204,7 @@ func cmdProp(args []string) {
 						}
 					}
 					v.contracts[rel+"."+c.Func] = c
+					groupOf[c] = g
 				}
 			}
 			// contracts of imported packages' groups needed by callers are loaded on demand by plans (Deps)
@@ -208,6 +216,14 @@ func cmdProp(args []string) {
 				c := v.contracts[key]
 				if len(want) > 0 && !want[c.Func] {
 					continue
+				}
+				if len(verifyGroup) > 0 && !verifyGroup[groupOf[c]] {
+					continue
+				}
+				if u.MultiPartOnly {
+					if fn := v.findFunc(pkg, c.Func); fn == nil || len(v.partitions(fn, c)) < 2 {
+						continue
+					}
 				}
 				r := v.VerifyFunc(pkg, c, pool)
 				r.Tags = tags
